@@ -1,6 +1,9 @@
 """C06 -- allocator protocol: E1 over the ledger allocators, monitor 'alloc'.  Two instantiations additionally run with
 one injected allocation/copy fault per history, because a failed (re)allocation is where a capacity word and a block
 most easily get out of step."""
+import json
+
+import vlib
 from checks import e1
 
 
@@ -14,4 +17,18 @@ def run(ctx):
         I("vector", 0, "TC4", alloc="ledgerbasic", L=3, opts=["--few-ranges", "--fault", "1"]),
     ]
     cov = e1.explore(ctx, matrix, ["C06"])
-    return ctx.finish("model_checking", cov, e1.ASSUME)
+    # direct grid over BasicAllocatorWrapper::reallocate (old capacity x new capacity x live count x element category)
+    binp = vlib.build("grid_c06.cpp", ["-std=c++17", "-O1", "-g1", "-w", "-fsanitize=address"], "g06")
+    rc, out, err = vlib.run([binp], timeout=300, env={"ASAN_OPTIONS": "detect_leaks=1"})
+    try:
+        res = json.loads(out)
+    except ValueError:
+        res = None
+    if res is None:
+        ctx.violation("G06|crash", {"cmd": binp, "stderr": err[-2000:]}, "reallocate grid died: " + (err.strip().split("\n") or [""])[-1][:200])
+    else:
+        for f in res["failures"]:
+            ctx.violation("G06|" + e1.norm("|".join(f.split("|")[:2] + f.split("|")[-1:])), {"case": f, "cmd": binp}, f)
+        cov["reallocate_grid_points"] = res["evaluations"]
+        cov["samples"] = cov["samples"][:10] + [{"reallocate grid point": s} for s in res["samples"][:2]]
+    return ctx.finish("model_checking", cov, e1.ASSUME + ["reallocate grid: capacities 0..6 -> 1..8; new capacity 0 is outside the property (realloc(p,0) is implementation-defined) and not driven"])
